@@ -427,6 +427,9 @@ class Element(TypedContent):
     def merge(self, other):
         SchemaObject.merge(self, other)
         self.rawchildren = other.rawchildren
+        # A reference can not specify its own nillable attribute; it is
+        # nillable when the referenced element is.
+        self.nillable = other.nillable
 
     def description(self):
         return "name", "ref", "type"
